@@ -109,13 +109,19 @@ class SuperNet(DNAS):
         :rtype: nn.Module
         """
         model = self.seed
-        # conversion forces `eval()` on the inner model: restore its training status afterwards
+        # conversion forces `eval()` on the inner model and runs a forward pass through it, which
+        # re-samples the NAS coefficients: restore the training status and the coefficients sampled
+        # in the last "real" forward pass (on which the cost depends) afterwards
         training_status = [(m, m.training) for m in self.seed.modules()]
+        sampled = [(m, m.theta_alpha) for m in self.seed.modules()
+                   if isinstance(m, SuperNetCombiner)]
         try:
             model, _, _ = convert(model, self._input_example, 'export')
         finally:
             for m, status in training_status:
                 m.training = status
+            for m, theta_alpha in sampled:
+                m.theta_alpha = theta_alpha
         return model
 
     def summary(self) -> Dict[str, Dict[str, Any]]:
